@@ -35,6 +35,10 @@ theorem Tri.skip' {P : St → Prop} : Tri P skip P := fun _ m a p => ⟨m, fun _
 theorem Tri.weaken {P P' Q Q' : St → Prop} {f : Op} (h : Tri P f Q) (hp : ∀ s, P' s → P s) (hq : ∀ s, Q s → Q' s) : Tri P' f Q' :=
   fun s m a p => ⟨(h s m a (hp s p)).1, fun t => ⟨((h s m a (hp s p)).2 t).1, hq _ ((h s m a (hp s p)).2 t).2⟩⟩
 
+/-- the precondition may be derived with the help of the invariants -/
+theorem Tri.pre_inv {P P' Q : St → Prop} {f : Op} (h : Tri P f Q) (hp : ∀ s, Main s → Aux s → P' s → P s) : Tri P' f Q :=
+  fun s m a p => h s m a (hp s m a p)
+
 theorem Tri.when' {P : St → Prop} {c : St → Bool} {t : Op} (ht : Tri (fun s => P s ∧ c s = true) t P) : Tri P (whenOp c t) P :=
   Tri.cond' ht (Tri.skip'.weaken (fun _ h => h.1) (fun _ h => h))
 
@@ -46,17 +50,14 @@ theorem Tri.must' {P : St → Prop} (c : St → Bool) : Tri P (must c) (fun s =>
 
 /-- a `Keeps` operation that does not disturb `P` -/
 theorem Tri.frame {P : St → Prop} {f : Op} (hk : Keeps f) (hf : ∀ s, P s → P (f s)) : Tri P f P :=
-  fun s m a p => ⟨(hk s m a).1, fun t => ⟨(hk s m a).2 t, hf s p⟩⟩
-
-theorem Tri.keeps {f : Op} (h : Tri (fun _ => True) f (fun _ => True)) : Keeps f :=
-  fun s m a => ⟨(h s m a trivial).1, fun t => ((h s m a trivial).2 t).1⟩
+  fun s m a p => ⟨hk.1 s m, fun t => ⟨hk.2 s m a t, hf s p⟩⟩
 
 theorem Keeps.tri {f : Op} (h : Keeps f) : Tri (fun _ => True) f (fun _ => True) := Tri.frame h (fun _ h => h)
 
 /-- raw updates of fields the invariants do not read -/
 syntax "same_upd" : tactic
 macro_rules
-  | `(tactic| same_upd) => `(tactic| exact keeps_of_same (fun _ => ⟨rfl, rfl, rfl, rfl, rfl, rfl, rfl, rfl, rfl, rfl, rfl, rfl, rfl, rfl, rfl, rfl, rfl⟩) (fun _ h => h))
+  | `(tactic| same_upd) => `(tactic| exact keeps_of_same (fun _ => ⟨rfl, rfl, rfl, rfl, rfl, rfl, rfl, rfl, rfl, rfl, rfl, rfl, rfl, rfl, rfl, rfl, rfl, rfl⟩) (fun _ h => h))
 
 /-! ### the basic operations -/
 
@@ -66,27 +67,35 @@ theorem consumeLimit_le (s : St) : s.consumeLimit ≤ s.put := by
   split <;> split <;> omega
 
 theorem keeps_virginConsume : Keeps virginConsume := by
-  intro s m a
-  unfold virginConsume
-  split
-  · exact ⟨m, fun _ => a⟩
-  split
-  · exact ⟨m, fun _ => a⟩
-  split
-  · exact ⟨m, fun _ => a⟩
-  split
-  · dsimp only
+  constructor
+  · intro s m
+    unfold virginConsume
+    split; · exact m
+    split; · exact m
+    split; · exact m
     split
-    · refine ⟨m.consume _ ?_, fun _ => ?_⟩
-      · have := consumeLimit_le s
+    · dsimp only
+      split
+      · refine m.consume _ ?_
+        have := consumeLimit_le s
         omega
-      · exact Aux.of_sameAux (s := s) ⟨rfl, rfl, rfl, rfl, rfl⟩ a
-    · exact ⟨m, fun _ => a⟩
-  · exact ⟨m.of_same (same_setThrown s) (fun h => h), fun h => by cases h⟩
+      · exact m
+    · exact m.of_same (same_setThrown s) (fun h => h)
+  · intro s _ a
+    unfold virginConsume
+    split; · exact fun _ => a
+    split; · exact fun _ => a
+    split; · exact fun _ => a
+    split
+    · dsimp only
+      split
+      · intro _; exact Aux.of_sameAux (s := s) ⟨rfl, rfl, rfl, rfl, rfl⟩ a
+      · exact fun _ => a
+    · intro h; cases h
 
 theorem keeps_noBypassNoRepeat : Keeps noBypassNoRepeat := by
   apply keeps_of_same
-  · intro s; exact ⟨rfl, rfl, rfl, rfl, rfl, rfl, rfl, rfl, rfl, rfl, rfl, rfl, rfl, rfl, rfl, rfl, rfl⟩
+  · intro s; exact ⟨rfl, rfl, rfl, rfl, rfl, rfl, rfl, rfl, rfl, rfl, rfl, rfl, rfl, rfl, rfl, rfl, rfl, rfl⟩
   · intro s h; cases h
 
 theorem Tri.atomic {P Q : St → Prop} {f : Op} (h : ∀ s, Main s → Aux s → P s → Main (f s) ∧ Aux (f s) ∧ Q (f s)) : Tri P f Q :=
@@ -114,15 +123,26 @@ theorem keeps_stopWriting (n : Bool) : Keeps (stopWriting n) := by
   unfold stopWriting; keeps
 macro_rules | `(tactic| keeps_base) => `(tactic| exact keeps_stopWriting _)
 
+theorem Main.disableSending {s : St} (m : Main s) : Main { s with vSending := { s.vSending with st := .disabled } } :=
+  ⟨m.put_le, m.cons_le, m.buf_eq, m.prod_end, m.nopipe, m.hnone, m.clone, m.plain, m.partEcho,
+   fun he => ⟨(m.ended he).clone, (m.ended he).plain, (m.ended he).part⟩, m.byp, m.sendV, m.taken_le, fun _ => rfl⟩
+
+theorem keeps_disableSending : Keeps (fun s => { s with vSending := { s.vSending with st := .disabled } }) :=
+  ⟨fun _ m => m.disableSending, fun s _ a _ => Aux.of_sameAux (s := s) ⟨rfl, rfl, rfl, rfl, rfl⟩ a⟩
+
 theorem keeps_stopBackup : Keeps stopBackup := by
-  unfold stopBackup; keeps
+  unfold stopBackup
+  with_reducible apply keeps_whenOp
+  with_reducible apply keeps_seq
+  · exact keeps_disableSending
+  · exact keeps_virginConsume
 macro_rules | `(tactic| keeps_base) => `(tactic| exact keeps_stopBackup)
 
 theorem keeps_pvWrote (n : Nat) (e : Bool) : Keeps (pvWrote n e) := by
   apply keeps_of_same
   · intro s; unfold pvWrote; split
     · exact same_setThrown s
-    · dsimp only; split <;> exact ⟨rfl, rfl, rfl, rfl, rfl, rfl, rfl, rfl, rfl, rfl, rfl, rfl, rfl, rfl, rfl, rfl, rfl⟩
+    · dsimp only; split <;> exact ⟨rfl, rfl, rfl, rfl, rfl, rfl, rfl, rfl, rfl, rfl, rfl, rfl, rfl, rfl, rfl, rfl, rfl, rfl⟩
   · intro s; unfold pvWrote; split
     · exact fun h => h
     · dsimp only; split <;> exact fun h => h
@@ -130,7 +150,8 @@ macro_rules | `(tactic| keeps_base) => `(tactic| exact keeps_pvWrote _ _)
 
 theorem keeps_wroteChunk (c : Nat) : Keeps (wroteChunk c) := by
   unfold wroteChunk
-  have k : Keeps (fun s => pvWrote c (s.endReached s.vWriting) s) := fun s m a => keeps_pvWrote _ _ s m a
+  have k : Keeps (fun s => pvWrote c (s.endReached s.vWriting) s) :=
+    ⟨fun s m => (keeps_pvWrote _ _).1 s m, fun s m a => (keeps_pvWrote _ _).2 s m a⟩
   with_reducible apply keeps_seq
   · with_reducible apply keeps_whenOp; exact k
   · keeps
@@ -141,12 +162,10 @@ theorem keeps_writeSomeBody (size : St → Nat) : Keeps (writeSomeBody size) := 
   with_reducible apply keeps_seq; with_reducible apply keeps_seq
   · keeps
   · keeps
-  · intro s m a
-    dsimp only
-    have k : Keeps (whenOp (fun _ => min (s.put - s.vWriting.start) (size s) > 0)
+  · have k : ∀ s : St, Keeps (whenOp (fun _ => min (s.put - s.vWriting.start) (size s) > 0)
         ((fun s' : St => { s' with vWriting := { s'.vWriting with start := s'.vWriting.start + min (s.put - s.vWriting.start) (size s) } }) ;; virginConsume) ;;
-        wroteChunk (min (s.put - s.vWriting.start) (size s))) := by keeps
-    exact k s m a
+        wroteChunk (min (s.put - s.vWriting.start) (size s))) := by intro s; keeps
+    exact ⟨fun s m => (k s).1 s m, fun s m a => (k s).2 s m a⟩
 macro_rules | `(tactic| keeps_base) => `(tactic| exact keeps_writeSomeBody _)
 
 theorem keeps_decideWritingAfterPreview : Keeps decideWritingAfterPreview := by
@@ -164,5 +183,102 @@ macro_rules | `(tactic| keeps_base) => `(tactic| exact keeps_writePrimeBody)
 theorem keeps_writeMore : Keeps writeMore := by
   unfold writeMore; keeps
 macro_rules | `(tactic| keeps_base) => `(tactic| exact keeps_writeMore)
+
+/-! ### frames: operations that leave the control fields (parsing, sending, head, outSt, uob) alone -/
+
+def Fr (f : Op) : Prop := ∀ s, SameAux s (f s)
+
+theorem SameAux.rfl' (s : St) : SameAux s s := ⟨rfl, rfl, rfl, rfl, rfl⟩
+theorem SameAux.trans {s t u : St} (a : SameAux s t) (b : SameAux t u) : SameAux s u :=
+  ⟨b.parsing.trans a.parsing, b.head.trans a.head, b.outSt.trans a.outSt, b.sending.trans a.sending, b.uob.trans a.uob⟩
+
+theorem fr_seq {f g : Op} (hf : Fr f) (hg : Fr g) : Fr (f ;; g) := by
+  intro s; show SameAux s (seq f g s); unfold seq; dsimp only; split
+  · exact hf s
+  · exact (hf s).trans (hg _)
+theorem fr_cond {c : St → Bool} {t e : Op} (ht : Fr t) (he : Fr e) : Fr (cond c t e) := by
+  intro s; unfold Icap.cond; split
+  · exact ht s
+  · exact he s
+theorem fr_skip : Fr skip := fun s => SameAux.rfl' s
+theorem fr_whenOp {c : St → Bool} {t : Op} (ht : Fr t) : Fr (whenOp c t) := fr_cond ht fr_skip
+theorem fr_throwNow : Fr throwNow := fun _ => ⟨rfl, rfl, rfl, rfl, rfl⟩
+theorem fr_must (c : St → Bool) : Fr (must c) := fr_cond fr_skip fr_throwNow
+theorem fr_checkConsuming : Fr checkConsuming := by
+  intro s; unfold checkConsuming; split
+  · exact SameAux.rfl' s
+  · exact ⟨rfl, rfl, rfl, rfl, rfl⟩
+theorem fr_virginConsume : Fr virginConsume := by
+  intro s; unfold virginConsume
+  split; · exact SameAux.rfl' s
+  split; · exact SameAux.rfl' s
+  split; · exact SameAux.rfl' s
+  split
+  · dsimp only; split
+    · exact ⟨rfl, rfl, rfl, rfl, rfl⟩
+    · exact SameAux.rfl' s
+  · exact ⟨rfl, rfl, rfl, rfl, rfl⟩
+theorem fr_pvWrote (n : Nat) (e : Bool) : Fr (pvWrote n e) := by
+  intro s; unfold pvWrote; split
+  · exact ⟨rfl, rfl, rfl, rfl, rfl⟩
+  · dsimp only; split <;> exact ⟨rfl, rfl, rfl, rfl, rfl⟩
+
+syntax "fr_base" : tactic
+macro_rules | `(tactic| fr_base) => `(tactic| exact (fun _ => ⟨rfl, rfl, rfl, rfl, rfl⟩))
+macro_rules | `(tactic| fr_base) => `(tactic| with_reducible apply fr_seq)
+macro_rules | `(tactic| fr_base) => `(tactic| with_reducible apply fr_cond)
+macro_rules | `(tactic| fr_base) => `(tactic| with_reducible apply fr_whenOp)
+macro_rules | `(tactic| fr_base) => `(tactic| with_reducible exact fr_skip)
+macro_rules | `(tactic| fr_base) => `(tactic| with_reducible exact fr_must _)
+macro_rules | `(tactic| fr_base) => `(tactic| with_reducible exact fr_throwNow)
+macro_rules | `(tactic| fr_base) => `(tactic| exact fr_checkConsuming)
+macro_rules | `(tactic| fr_base) => `(tactic| exact fr_virginConsume)
+macro_rules | `(tactic| fr_base) => `(tactic| exact fr_pvWrote _ _)
+macro "frames" : tactic => `(tactic| repeat' fr_base)
+
+theorem fr_noBypassNoRepeat : Fr noBypassNoRepeat := fun _ => ⟨rfl, rfl, rfl, rfl, rfl⟩
+macro_rules | `(tactic| fr_base) => `(tactic| exact fr_noBypassNoRepeat)
+theorem fr_stopWriting (n : Bool) : Fr (stopWriting n) := by unfold stopWriting; frames
+macro_rules | `(tactic| fr_base) => `(tactic| exact fr_stopWriting _)
+theorem fr_stopBackup : Fr stopBackup := by unfold stopBackup; frames
+macro_rules | `(tactic| fr_base) => `(tactic| exact fr_stopBackup)
+theorem fr_wroteChunk (c : Nat) : Fr (wroteChunk c) := by
+  unfold wroteChunk
+  have k : Fr (fun s => pvWrote c (s.endReached s.vWriting) s) := fun s => fr_pvWrote _ _ s
+  with_reducible apply fr_seq
+  · with_reducible apply fr_whenOp; exact k
+  · frames
+macro_rules | `(tactic| fr_base) => `(tactic| exact fr_wroteChunk _)
+theorem fr_writeSomeBody (size : St → Nat) : Fr (writeSomeBody size) := by
+  unfold writeSomeBody
+  with_reducible apply fr_seq; with_reducible apply fr_seq
+  · frames
+  · frames
+  · intro s
+    dsimp only
+    have k : Fr (whenOp (fun _ => min (s.put - s.vWriting.start) (size s) > 0)
+        ((fun s' : St => { s' with vWriting := { s'.vWriting with start := s'.vWriting.start + min (s.put - s.vWriting.start) (size s) } }) ;; virginConsume) ;;
+        wroteChunk (min (s.put - s.vWriting.start) (size s))) := by frames
+    exact k s
+macro_rules | `(tactic| fr_base) => `(tactic| exact fr_writeSomeBody _)
+theorem fr_decideWritingAfterPreview : Fr decideWritingAfterPreview := by unfold decideWritingAfterPreview; frames
+macro_rules | `(tactic| fr_base) => `(tactic| exact fr_decideWritingAfterPreview)
+theorem fr_writePreviewBody : Fr writePreviewBody := by unfold writePreviewBody; frames
+macro_rules | `(tactic| fr_base) => `(tactic| exact fr_writePreviewBody)
+theorem fr_writePrimeBody : Fr writePrimeBody := by unfold writePrimeBody; frames
+macro_rules | `(tactic| fr_base) => `(tactic| exact fr_writePrimeBody)
+theorem fr_writeMore : Fr writeMore := by unfold writeMore; frames
+macro_rules | `(tactic| fr_base) => `(tactic| exact fr_writeMore)
+
+/-- a fact about the control fields -/
+abbrev Ctl := Parsing → Sending → Head → OutSt → Option Nat → Prop
+def St.ctl (s : St) (P : Ctl) : Prop := P s.parsing s.sending s.head s.outSt s.uob
+
+theorem SameAux.ctl {s t : St} (h : SameAux s t) (P : Ctl) (p : s.ctl P) : t.ctl P := by
+  unfold St.ctl at *; rw [h.parsing, h.sending, h.head, h.outSt, h.uob]; exact p
+
+/-- a `Keeps` operation that is a frame for the control fields carries any fact about them -/
+theorem Tri.ctl {f : Op} (hk : Keeps f) (hf : Fr f) (P : Ctl) : Tri (fun s => s.ctl P) f (fun s => s.ctl P) :=
+  Tri.frame hk (fun s p => (hf s).ctl P p)
 
 end SquidModel.Icap
